@@ -214,6 +214,9 @@ func c18Value(r gen.R, k fkind, f lfield) (reflect.Value, rm.Val) {
 	case "addrport":
 		v := r.IP()
 		port := uint16(r.Pick(65536))
+		if r.Pick(8) == 0 {
+			v, port = rm.IPVal(0, 0, 0, 0), []uint16{0, 0, 60001}[r.Pick(3)]
+		}
 		return wrap(netip.AddrPortFrom(netip.AddrFrom4([4]byte{v.B[0], v.B[1], v.B[2], v.B[3]}), port), rm.Val{K: rm.AddrPort, B: v.B, U: uint64(port)})
 	case "hwaddr", "mac":
 		b := make([]byte, 6)
